@@ -29,7 +29,7 @@ import t3gen as T     # noqa: E402
 
 TIERS = {
     'quick': {'pos': 40, 'probe': 10, 'illformed_from': 6},
-    'thorough': {'pos': 240, 'probe': 60, 'illformed_from': 30},
+    'thorough': {'pos': 480, 'probe': 120, 'illformed_from': 40},
 }
 
 PRELUDE_STD = '''#![allow(dead_code, unused_variables, unused_mut, non_snake_case, non_camel_case_types, unused_imports, private_interfaces)]
